@@ -75,6 +75,9 @@ int  hx_max_thread(const hx_plan_t *p);
 
 /* result helpers */
 void hx_fail(hx_result_t *r, const char *vclass, const char *fmt, ...) __attribute__((format(printf, 3, 4)));
+/* end the current run at once with a violation (world stopped; never returns): for errors detected deep
+ * inside simulated library code, e.g. by the simulated MPI */
+void hx_abort_run(const char *vclass, const char *detail) __attribute__((noreturn));
 static inline void hx_hash(hx_result_t *r, uint64_t v) { r->hist_hash = (r->hist_hash ^ v) * 0x100000001b3ULL; }
 
 /* simple thread-group helper: run fn(i) on n sim threads (ids 1..n) and join them */
